@@ -96,7 +96,7 @@ def _shrink(v):
 
 
 def correspondence(ctx):
-    n = 90 if ctx.tier == 'quick' else 1500
+    n = 70 if ctx.tier == 'quick' else 1500
     binp = ctx.go_build('c04')
     _keys_file(ctx, binp)
     out = os.path.join(ctx.dir, 'cases.jsonl')
